@@ -70,6 +70,58 @@ func diffStates(a, b world.DevState) []string {
 	return out
 }
 
+// diffKind classifies a state difference a (reference) vs b: "b-missing" (b lacks leaves a has), "b-extra", "value", or "mixed".
+func diffKind(a, b world.DevState) string {
+	kinds := map[string]bool{}
+	for k, x := range a {
+		if y, ok := b[k]; !ok {
+			kinds["b-missing"] = true
+		} else if world.NormAbs(x.Abs) != world.NormAbs(y.Abs) {
+			kinds["value"] = true
+		}
+	}
+	for k := range b {
+		if _, ok := a[k]; !ok {
+			kinds["b-extra"] = true
+		}
+	}
+	switch len(kinds) {
+	case 0:
+		return "none"
+	case 1:
+		for k := range kinds {
+			return k
+		}
+	}
+	return "mixed"
+}
+
+// diffUnderDeletes: every differing leaf lies at or below one of the deleted subtrees.
+func diffUnderDeletes(a, b world.DevState, dels []world.Path) bool {
+	under := func(p world.Path) bool {
+		for _, d := range dels {
+			if p.HasPrefix(d) {
+				return true
+			}
+		}
+		return false
+	}
+	for k, x := range a {
+		if y, ok := b[k]; ok && world.NormAbs(x.Abs) == world.NormAbs(y.Abs) {
+			continue
+		}
+		if !under(x.Path) {
+			return false
+		}
+	}
+	for k, y := range b {
+		if _, ok := a[k]; !ok && !under(y.Path) {
+			return false
+		}
+	}
+	return true
+}
+
 // OracleC10 judges the encodings captured for one Set of the direct device against the proto view.
 func OracleC10(rc *sim.RunCtx, w *world.World, prior world.DevState, rec *world.SetRecord, step int, tx *TxSpec) {
 	si := w.SI
@@ -77,10 +129,12 @@ func OracleC10(rc *sim.RunCtx, w *world.World, prior world.DevState, rec *world.
 		rc.Report(sim.Item{Prop: "C10", Clause: "C10.encoding-error", Step: step, Fields: map[string]string{"encoding": k}, Detail: e})
 	}
 	norm := func(s world.DevState) world.DevState { return s.WithImpliedPresence(si) }
+	// effects are compared under the YANG reading of presence containers (an existing one stays until deleted explicitly)
+	persist := func(s world.DevState, deleted []world.Path) world.DevState { return s.PersistPresence(si, prior, deleted) }
 	// reference effect: proto view
 	ref := prior.Clone()
 	world.ApplyGnmi(ref, rec.Deletes, rec.Updates)
-	ref = norm(ref)
+	ref = persist(ref, rec.Deletes)
 	hasLL, hasDel, hasPresence := false, len(rec.Deletes) > 0, false
 	for _, u := range rec.Updates {
 		if n := si.Node(u.Path); n != nil && n.Kind == world.KLeafList {
@@ -117,7 +171,7 @@ func OracleC10(rc *sim.RunCtx, w *world.World, prior world.DevState, rec *world.
 				st.Set(l)
 			}
 		}
-		if d := diffStates(ref, norm(st)); len(d) > 0 {
+		if d := diffStates(ref, persist(st, rec.Deletes)); len(d) > 0 {
 			ff := copyFields(f)
 			ff["encoding"] = j.name
 			rc.Report(sim.Item{Prop: "C10", Clause: "C10.effect-differs", Step: step, Fields: ff, Detail: fmt.Sprintf("applying the %s view to the prior device state differs from the proto view (proto vs %s): %s", j.name, j.name, strings.Join(d, "; "))})
@@ -142,18 +196,22 @@ func OracleC10(rc *sim.RunCtx, w *world.World, prior world.DevState, rec *world.
 			ff := copyFields(f)
 			ff["combo"] = c
 			ff["ns"] = fmt.Sprint(ns)
+			ff["delete_element"] = fmt.Sprint(strings.Contains(it, "[delete-element]"))
 			rc.Report(sim.Item{Prop: "C10", Clause: clause, Step: step, Fields: ff, Detail: it + "\n" + rec.XML[c]})
 		}
 		if seen["C10.xml-malformed"] {
 			continue
 		}
-		if d := diffStates(ref, norm(st)); len(d) > 0 {
+		stp := persist(st, iss.Deleted)
+		if d := diffStates(ref, stp); len(d) > 0 {
 			ff := copyFields(f)
 			ff["encoding"] = "xml"
 			ff["combo"] = c
 			// classify: does the document put operation=replace on a container (leaf-list change)?
 			ff["replace_on_container"] = fmt.Sprint(strings.Contains(rec.XML[c], `operation="replace"`))
-			ff["choice_member"] = fmt.Sprint(diffInChoice(si, ref, norm(st)))
+			ff["diff_kind"] = diffKind(ref, stp)
+			ff["key_delete"] = fmt.Sprint(iss.KeyDelete)
+			ff["choice_member"] = fmt.Sprint(diffInChoice(si, ref, stp))
 			rc.Report(sim.Item{Prop: "C10", Clause: "C10.effect-differs", Step: step, Fields: ff, Detail: fmt.Sprintf("applying the XML (%s) document to the prior device state differs from the proto view (proto vs xml): %s\n%s", c, strings.Join(d, "; "), rec.XML[c])})
 			break
 		}
@@ -175,6 +233,8 @@ func OracleC10(rc *sim.RunCtx, w *world.World, prior world.DevState, rec *world.
 		if d := diffStates(full, norm(leavesToState(leaves))); len(d) > 0 {
 			ff := copyFields(f)
 			ff["encoding"] = j.name
+			ff["diff_kind"] = diffKind(full, norm(leavesToState(leaves)))
+			ff["under_deletes"] = fmt.Sprint(diffUnderDeletes(full, norm(leavesToState(leaves)), rec.Deletes))
 			rc.Report(sim.Item{Prop: "C10", Clause: "C10.full-view-differs", Step: step, Fields: ff, Detail: fmt.Sprintf("full view (proto vs %s): %s", j.name, strings.Join(d, "; "))})
 		}
 	}
@@ -182,7 +242,7 @@ func OracleC10(rc *sim.RunCtx, w *world.World, prior world.DevState, rec *world.
 		st, iss := si.ApplyXML(world.DevState{}, x, true, false, false)
 		for _, it := range iss.Items {
 			if strings.HasPrefix(it, "C10.xml-malformed") || strings.HasPrefix(it, "C10.xml-keys-first") || strings.HasPrefix(it, "C10.xml-namespace") {
-				rc.Report(sim.Item{Prop: "C10", Clause: strings.SplitN(it, ":", 2)[0], Step: step, Fields: map[string]string{"combo": "ns1-op0-del", "view": "full"}, Detail: it})
+				rc.Report(sim.Item{Prop: "C10", Clause: strings.SplitN(it, ":", 2)[0], Step: step, Fields: map[string]string{"combo": "ns1-op0-del", "view": "full", "delete_element": fmt.Sprint(strings.Contains(it, "[delete-element]"))}, Detail: it})
 				break
 			}
 		}
@@ -190,6 +250,8 @@ func OracleC10(rc *sim.RunCtx, w *world.World, prior world.DevState, rec *world.
 			ff := copyFields(f)
 			ff["encoding"] = "xml"
 			ff["choice_member"] = fmt.Sprint(diffInChoice(si, full, norm(st)))
+			ff["diff_kind"] = diffKind(full, norm(st))
+			ff["under_deletes"] = fmt.Sprint(diffUnderDeletes(full, norm(st), rec.Deletes))
 			rc.Report(sim.Item{Prop: "C10", Clause: "C10.full-view-differs", Step: step, Fields: ff, Detail: fmt.Sprintf("full view (proto vs xml): %s", strings.Join(d, "; "))})
 		}
 	}
